@@ -128,6 +128,7 @@ impl C01 {
             compare: if self.cost { Compare::Off } else { Compare::All },
             check_cost: self.cost,
             compare_board: false,
+            lenient: self.cost,
         }
     }
 
@@ -178,6 +179,7 @@ impl C01 {
         let c = self.cfg();
         ls.compare = c.compare;
         ls.check_cost = c.check_cost;
+        ls.lenient = c.lenient;
         let mut guard = 0;
         loop {
             let ev = ls.tick()?;
@@ -300,6 +302,7 @@ impl C01 {
                             let c = self.cfg();
                             ls.compare = c.compare;
                             ls.check_cost = c.check_cost;
+                            ls.lenient = c.lenient;
                             let mut seen = 0;
                             let mut n = 0;
                             while seen < 2 && n < 2 * STALL_LIMIT {
@@ -370,6 +373,7 @@ impl C01 {
                             let c = self.cfg();
                             ls.compare = c.compare;
                             ls.check_cost = c.check_cost;
+                            ls.lenient = c.lenient;
                             let mut seen = 0;
                             let mut n = 0;
                             while seen < 2 && n < 100 {
